@@ -15,9 +15,9 @@ open Spake2Model Spake2Model.Gen
 
 /-! ### the field size and the group order -/
 
-theorem Q_c_eq : Ed.Q_c = 2 ^ 255 - 19 := rfl
+theorem Q_c_eq : Ed.Q_c = 2 ^ 255 - 19 := by decide +kernel
 
-theorem L_c_eq : Ed.L_c = 2 ^ 252 + 27742317777372353535851937790883648493 := rfl
+theorem L_c_eq : Ed.L_c = 2 ^ 252 + 27742317777372353535851937790883648493 := by decide +kernel
 
 theorem Q_c_pos : 0 < Ed.Q_c := by decide +kernel
 
